@@ -944,6 +944,7 @@ pub fn child_run_case(c: &Case, bufs: &Bufs, engine: Engine, family: Family, out
                 let nlog1 = hlp::log_total();
                 let n = soak_n();
                 let recompiles = if n >= 66_000 { 300 } else { 4 };
+                let mut plain_round = false;
                 for k in 0..n + recompiles {
                     if k >= n {
                         #[cfg(not(any(feature = "std", feature = "stdlite")))]
@@ -954,9 +955,13 @@ pub fn child_run_case(c: &Case, bufs: &Bufs, engine: Engine, family: Family, out
                         // the helpers are registered again before every re-compilation - a decoy
                         // function first, then the right one: the code compiled now must call the
                         // function registered NOW, however many registrations the VM has seen
+                        // (odd rounds end on the PLAIN twin of each function - same index, same result,
+                        // but it records no entry stack pointer - so the log shows which registration
+                        // the compiled code really calls)
+                        plain_round = (k - n) % 2 == 0 && !matches!(family, Family::Plain); // (the last round is not a plain one: the record keeps its log)
                         for (id, j) in &c.helpers {
                             let _ = vm.register_helper(*id, helper_for((*j + 1) % hlp::NH, family));
-                            let _ = vm.register_helper(*id, helper_for(*j, family));
+                            let _ = vm.register_helper(*id, helper_for(*j, if plain_round { Family::Plain } else { family }));
                         }
                         // every 50th round: a burst of re-loads (placeholder / program alternating, ending
                         // on the program) of a length around 2^8 or 2^9; compiled code must then be
@@ -1012,6 +1017,14 @@ pub fn child_run_case(c: &Case, bufs: &Bufs, engine: Engine, family: Family, out
                     let mut same = matches!(&rk, Ok(Ok(vk)) if *vk == v) && nlog1 == hlp::log_total();
                     if same && (k % 64 == 63 || k + 1 == n + recompiles || k < 4 || k >= n) {
                         same = pkt1 == bufs.pkt_bytes();
+                    }
+                    if same && k >= n && !matches!(family, Family::Plain) && !cfg!(miri) {
+                        let lg = hlp::log_take();
+                        if lg.iter().any(|e| (e.rsp == 0) != plain_round) {
+                            rec.status = 6;
+                            rec.msg = format!("after {} register_helper calls per id on this VM and a re-compilation, the compiled code still calls a function registered EARLIER under the same id (round {} of re-registration, the {} twin was registered last)", 2 * (k - n + 1), k - n + 1, if plain_round { "plain" } else { "stack-recording" });
+                            break;
+                        }
                     }
                     if !same {
                         rec.status = 6;
